@@ -9,6 +9,7 @@ import (
 	"strconv"
 	"strings"
 	"testing"
+	"unicode/utf8"
 
 	"golang.org/x/perf/benchfmt"
 	"golang.org/x/perf/benchproc"
@@ -260,6 +261,64 @@ func Check(c Case) (v vcase.Verdict) {
 				return
 			}
 		}
+	}
+	// A clone that is edited afterwards: a longer value for the first configured key leaves
+	// every other key as it was (each value of a clone stands on its own).
+	if len(res.Config) >= 2 {
+		cl := res.Clone()
+		k0 := res.Config[0].Key
+		// (just long enough to reach into the value stored after it, were the two adjacent)
+		long := cfgRef[k0] + strings.Repeat("+", len(res.Config[1].Value))
+		cl.SetConfig(k0, long)
+		v.Label("clone_then_longer_value")
+		for k, wv := range cfgRef {
+			if k == k0 {
+				wv = long
+			}
+			var pp benchproc.ProjectionParser
+			proj, err := pp.Parse(strconv.Quote(k), nil)
+			if err != nil {
+				v.Failf("Parse(%s): %v", strconv.Quote(k), err)
+				return
+			}
+			if got := proj.Project(cl).Get(proj.Fields()[0]); got != wv {
+				v.Failf("name %q config %v: after Clone and SetConfig(%q, longer value) key %q extracts %q, want %q", name, cfgRef, k0, k, got, wv)
+				return
+			}
+			if got := proj.Project(res).Get(proj.Fields()[0]); got != cfgRef[k] {
+				v.Failf("name %q config %v: editing the clone changed the original: key %q extracts %q, want %q", name, cfgRef, k, got, cfgRef[k])
+				return
+			}
+		}
+	}
+	// Two fields through one projection, on this name and on a sibling whose base and
+	// sub-name value are cut at another place of the same text (base+v[:1], v[1:]): the two
+	// tuples are different although their values concatenate alike.
+	for k, wv := range want {
+		if !strings.HasPrefix(k, "/") || k == "/gomaxprocs" || len(wv) < 2 || strings.ContainsAny(wv, "/-") || !utf8.ValidString(wv[:1]) || !utf8.ValidString(name) {
+			continue
+		}
+		seg := k + "=" + wv
+		if strings.Count(name, seg) != 1 || !strings.HasPrefix(name, base+"/") {
+			continue
+		}
+		sib := base + wv[:1] + strings.Replace(name[len(base):], seg, k+"="+wv[1:], 1)
+		sres := &benchfmt.Result{Name: benchfmt.Name(sib), Iters: 1, Values: []benchfmt.Value{{Value: 1, Unit: "u"}}}
+		var pp benchproc.ProjectionParser
+		proj, err := pp.Parse(".name,"+strconv.Quote(k), nil)
+		if err != nil {
+			v.Failf("Parse(.name,%s): %v", strconv.Quote(k), err)
+			return
+		}
+		k1, k2 := proj.Project(res), proj.Project(sres)
+		fs := proj.Fields()
+		v.Label("two_fields_colliding_concatenation")
+		if k1 == k2 || k1.Get(fs[0]) != base || k1.Get(fs[1]) != wv || k2.Get(fs[0]) != base+wv[:1] || k2.Get(fs[1]) != wv[1:] {
+			v.Failf("projection .name,%s: %q gives (%q,%q) and %q gives (%q,%q), equal keys = %v; want (%q,%q) and (%q,%q), different keys",
+				k, name, k1.Get(fs[0]), k1.Get(fs[1]), sib, k2.Get(fs[0]), k2.Get(fs[1]), k1 == k2, base, wv, base+wv[:1], wv[1:])
+			return
+		}
+		break
 	}
 	// .fullname next to sub-name keys the name does not have: nothing to remove, so it is
 	// still the whole name (segments that merely start like "/k" stay).
